@@ -111,7 +111,7 @@ def _design_jobs(q):
             ("pair_wide", "BoundZoneMC_pair", {"Coords": "{0, 1, 2}", "ZoneNulls": "FALSE"}, "ok", 2),
             ("pair_wide_ascoded", "BoundZoneMC_pair_ascoded", {"Coords": "{0, 1, 2}", "ZoneNulls": "FALSE"}, "ok", 2),
             ("clip_3d", "BoundZoneMC_clip_ascoded",
-             {"Dims": 3, "Coords": "{0}", "Radii": "{3}", "Margin": 3, "MaxDepth": 2}, "ok", 2),
+             {"Dims": 3, "Coords": "{0}", "Radii": "{3}", "Margin": 4, "MaxDepth": 2}, "ok", 2),
         ]
     # binding demonstrations (bin/mutcheck) do not need the code-free design runs again
     if os.environ.get("VERIF_X06_ONLY") == "binding":
@@ -126,7 +126,7 @@ def _gen_jobs(q):
         return [
             ("p1", "pairs", dict(one, ZoneNulls="FALSE"), 4),
             ("c1", "chains", dict(one, LeafKind='"solid"', MaxDepth=3), 2),
-            ("k2", "clips", {"Coords": "{0}", "Dims": 2, "Radii": "{4}", "Margin": 4, "MaxDepth": 2}, 1),
+            ("k2", "clips", {"Coords": "{0}", "Dims": 2, "Radii": "{4}", "Margin": 5, "MaxDepth": 2}, 1),
             ("u1", "units", {"Coords": "{0, 2, 4}", "Dims": 1, "ProbeOdd": "TRUE", "MaxDepth": 2}, 2),
         ]
     return [
@@ -136,8 +136,8 @@ def _gen_jobs(q):
         ("c1", "chains", dict(one, LeafKind='"solid"', MaxDepth=4), 4),
         ("c1b", "chains", dict(one, LeafKind='"blobs"', MaxDepth=2), 4),
         ("c1s", "chains", {"Coords": "{0, 1}", "Dims": 1, "LeafKind": '"boxes"', "WithSemi": "TRUE", "MaxDepth": 2}, 2),
-        ("k2", "clips", {"Coords": "{0, 2}", "Dims": 2, "Radii": "{3, 4}", "Margin": 4, "MaxDepth": 2}, 2),
-        ("k3", "clips", {"Coords": "{0}", "Dims": 3, "Radii": "{3}", "Margin": 3, "MaxDepth": 2}, 1),
+        ("k2", "clips", {"Coords": "{0, 2}", "Dims": 2, "Radii": "{3, 4}", "Margin": 5, "MaxDepth": 2}, 2),
+        ("k3", "clips", {"Coords": "{0}", "Dims": 3, "Radii": "{3}", "Margin": 4, "MaxDepth": 2}, 1),
         ("u1", "units", {"Coords": "{0, 2, 4, 6}", "Dims": 1, "ProbeOdd": "TRUE", "MaxDepth": 2}, 4),
     ]
 
